@@ -28,6 +28,7 @@ func init() {
 		func(t *vcTrial) { vcRunC05(t, vc05Cfg{Network: "unix", Handler: "drain", Actors: []string{"ioerror"}, OnConnect: true}) },
 		func(t *vcTrial) { vcRunC05(t, vc05Cfg{Network: "tcp", Handler: "none", OnConnect: true, Actors: []string{"fin"}}) },
 		func(t *vcTrial) { vcRunC05(t, vc05Cfg{Network: "unix", Handler: "none", OnConnect: true, Actors: []string{"input", "fin"}}) },
+		vcRunC05DetachThenClose,
 		func(t *vcTrial) { vcRunC05PrepareClose(t, 1, "tcp") },
 		func(t *vcTrial) { vcRunC05PrepareClose(t, 3, "unix") },
 	}
@@ -742,4 +743,89 @@ func vcRunC05PrepareClose(t *vcTrial, closes int, network string) {
 		t.Violate("C05", "registration_release", "close inside OnPrepare: poller slot released %d time(s), want 1", n)
 	}
 	t.Nontrivial, t.Sig = true, fmt.Sprintf("prepare-close|%s|k=%d", network, closes)
+}
+
+// vcRunC05DetachThenClose: two user-side calls, Detach() and then Close(). Detach comes while the
+// handler task still holds the processing lock (it cannot detach and leaves the teardown to
+// "whoever holds the lock"); Close comes right after the task released the lock and before the
+// task's own re-check. The calls are placed with the hook callbacks, on the task's goroutine, so the
+// order is exact. Whatever path tears the connection down, the descriptor handed back to the user
+// must be deregistered from netpoll's epoll instance.
+func vcRunC05DetachThenClose(t *vcTrial) {
+	t.P("variant", "detach-under-lock-then-close-in-the-unlock-window")
+	audit := vcStartAudit()
+	_ = audit
+	epfd := -1
+	var connID uintptr
+	so := vcSrvOpts{Network: "unix", NCloseCb: 3}
+	so.OnPrepare = func(rec *vcConnRec) {
+		connID = rec.ID
+		if dp, ok := vcInner(rec.Conn).operator.poll.(*defaultPoll); ok {
+			epfd = dp.fd
+		}
+	}
+	so.OnRequest = func(ctx context.Context, rec *vcConnRec) error {
+		rec.Conn.Reader().Skip(rec.Conn.Reader().Len())
+		return nil
+	}
+	srv, err := vcStartServer(so)
+	if err != nil {
+		t.Inconclusive("server start: %v", err)
+		return
+	}
+	defer srv.Stop(3 * time.Second)
+	cli, err := vcDialRaw(srv)
+	if err != nil {
+		t.Inconclusive("dial: %v", err)
+		return
+	}
+	defer cli.Close()
+	rec := srv.nextAccepted(3 * time.Second)
+	if rec == nil {
+		t.Inconclusive("accept not seen")
+		return
+	}
+	var stage int32
+	var detachErr, closeErr atomic.Value
+	vcPointCallback.Store(func(id int, obj uintptr, arg int) {
+		if obj != connID {
+			return
+		}
+		switch {
+		case id == vpProcessBeforeUnlock && atomic.CompareAndSwapInt32(&stage, 0, 1):
+			// the task holds the processing lock and has made its last close check
+			detachErr.Store(fmt.Sprint(vcInner(rec.Conn).Detach()))
+		case id == vpProcessAfterUnlock && atomic.CompareAndSwapInt32(&stage, 1, 2):
+			// the lock is free, the task has not re-checked yet
+			closeErr.Store(fmt.Sprint(rec.Conn.Close()))
+		}
+	})
+	defer vcPointCallback.Store(func(id int, obj uintptr, arg int) {})
+	cli.Write([]byte("one-request"))
+	if !rec.waitClosed(5 * time.Second) {
+		if atomic.LoadInt32(&stage) < 2 {
+			t.Inconclusive("the task did not pass the two points (stage %d)", atomic.LoadInt32(&stage))
+		} else {
+			t.Violate("C05", "never_torn_down", "Detach() and Close() both returned (%v, %v) but the close callbacks never ran (history %v)", detachErr.Load(), closeErr.Load(), rec.history())
+		}
+		return
+	}
+	vcWaitPoint(t.Mark, vpFinalizerAfterClose, rec.ID, 5*time.Second)
+	time.Sleep(300 * time.Microsecond)
+	if msg := rec.checkCloseCallbacks(); msg != "" {
+		t.Violate("C05", "close_callbacks", "Detach then Close: %s (history %v)", msg, rec.history())
+	}
+	if open, _, _ := vcFstat(rec.FD); open {
+		if epfd >= 0 {
+			var ev epollevent
+			if err := EpollCtl(epfd, syscall.EPOLL_CTL_DEL, rec.FD, &ev); err == nil {
+				t.Violate("C05", "registration_left", "Detach() found the handler task holding the lock, Close() followed in the window after the task's unlock: the connection was torn down (close callbacks done, poller slot released) without EPOLL_CTL_DEL - detached descriptor %d was still registered with netpoll's epoll instance (history %v)", rec.FD, rec.history())
+			}
+		}
+		syscall.Close(rec.FD)
+	} else {
+		t.Violate("C05", "descriptor_closes", "Detach() returned %v, yet netpoll closed descriptor %d", detachErr.Load(), rec.FD)
+	}
+	t.Nontrivial = atomic.LoadInt32(&stage) == 2
+	t.Sig = "detach-then-close"
 }
